@@ -158,6 +158,25 @@ func parseText(text string) (bool, string, [][2]int, string) {
 	if pan != nil {
 		return false, "", nil, fmt.Sprintf("parse panicked: %v", pan)
 	}
+	// the verdict does not depend on what a shared pair of interners has seen before: the loader parses all files of
+	// a module set with one pair (parse.ParseWithInterners), so the text is parsed twice more with a fresh shared pair
+	si, ai := parse.NewStringInterner(), parse.NewArgInterner()
+	for i := 0; i < 2; i++ {
+		var err2 error
+		var pan2 any
+		if !fw.WithTimeout(20, func() {
+			defer func() { pan2 = recover() }()
+			_, err2 = parse.ParseWithInterners("in.yang", text, nil, si, ai)
+		}) {
+			return false, "", nil, "parse with shared interners did not return"
+		}
+		if pan2 != nil {
+			return false, "", nil, fmt.Sprintf("parse with shared interners panicked: %v", pan2)
+		}
+		if (err2 == nil) != (err == nil) {
+			return false, "", nil, fmt.Sprintf("parse %d with a shared pair of interners gives another verdict (%v) than the plain parse (%v)", i+1, err2, err)
+		}
+	}
 	if err == nil {
 		return true, "", nil, ""
 	}
